@@ -185,24 +185,36 @@ let () =
   let verbose = Array.length Sys.argv > 2 && Sys.argv.(2) = "-v" in
   let hist = ref 0 and stepn = ref 0 and steps = ref 0 and cases = ref 0 and bad = ref 0 in
   let st = ref init2 and res = ref Ok and opline = ref "" in
-  let dead = ref false in   (* after a mismatch / panic the rest of the history is skipped *)
+  (* every R and D line is compared, also after a mismatch (the model keeps running on its own
+     state); per history only the first mismatch of each kind is printed, all are counted *)
+  let bad_result = ref 0 and bad_state = ref 0 and cmp_result = ref 0 and cmp_state = ref 0 in
+  let shown_result = ref false and shown_state = ref false and printed = ref 0 in
+  let bad_hist = ref 0 and hist_bad = ref false in
+  let end_line = ref None in
   let report kind impl model =
-    incr bad; dead := true;
-    if !bad <= 40 then
-      Printf.printf "MISMATCH hist=%d step=%d kind=%s op=[%s]\n  impl =%s\n  model=%s\n" !hist !stepn kind !opline impl model in
+    incr bad;
+    if not !hist_bad then (hist_bad := true; incr bad_hist);
+    let shown = if kind = "result" then (incr bad_result; shown_result) else (incr bad_state; shown_state) in
+    if not !shown && !printed < 200 then begin
+      shown := true; incr printed;
+      Printf.printf "MISMATCH hist=%d step=%d kind=%s op=[%s]\n  impl =%s\n  model=%s\n" !hist !stepn kind !opline impl model
+    end in
   (try while true do
       let line = input_line ic in
       let n = String.length line in
-      if n >= 2 && line.[0] <> '#' then begin
+      if n >= 4 && String.sub line 0 4 = "END " then end_line := Some (String.sub line 4 (n - 4))
+      else if n >= 2 && line.[0] <> '#' then begin
         let body = String.sub line 2 (n - 2) in
         match line.[0] with
-        | 'H' -> hist := int_of_string (String.trim body); st := init2; stepn := 0; dead := false; incr cases
-        | 'O' when not !dead ->
+        | 'H' -> hist := int_of_string (String.trim body); st := init2; stepn := 0; incr cases;
+          shown_result := false; shown_state := false; hist_bad := false
+        | 'O' ->
           incr stepn; incr steps; opline := body;
           let (s', r) = step2 !st (parse_op (split_ws body)) in
           st := s'; res := r;
           if verbose then Printf.printf "op %s\n" body
-        | 'R' when not !dead ->
+        | 'R' ->
+          incr cmp_result;
           let model = match !res with
             | Ok -> "ok"
             | Err l -> "err " ^ String.concat "/" (List.map (fun (c, w) -> cause_s c ^ " " ^ wrap_s w) l) in
@@ -212,11 +224,17 @@ let () =
             | _ -> false in
           if verbose then Printf.printf "  impl %s | model %s\n" body model;
           if not agree then report "result" body model
-        | 'D' when not !dead ->
+        | 'D' ->
+          incr cmp_state;
           let d = dump !st in
           if verbose then Printf.printf "  %s\n" d;
           if d <> body then report "state" body d
         | _ -> ()
       end
     done with End_of_file -> ());
-  Printf.printf "CASES %d STEPS %d MISMATCHES %d\n" !cases !steps !bad
+  Printf.printf "CASES %d STEPS %d MISMATCHES %d\n" !cases !steps !bad;
+  Printf.printf "KINDS result=%d state=%d histories=%d\n" !bad_result !bad_state !bad_hist;
+  Printf.printf "COMPARED results=%d states=%d\n" !cmp_result !cmp_state;
+  (match !end_line with
+   | Some e -> Printf.printf "END %s\n" e
+   | None -> Printf.printf "NOEND\n")
